@@ -88,7 +88,8 @@ theorem lostAssigned_bumped (ids : List TaskId) (s0 s s' : State) (ru ru' re re'
           · cases h
           · rename_i s2 r h2
             exact arm { s with redirects := s.redirects.filter (·.1 ≠ id) } s2 { task with inst := task.inst + 1 } _ _
-              rfl rfl rfl (TRel.bump task task.state (fun _ h => h)) (addReady_tasks h2) h
+              rfl rfl rfl (TRel.bump task task.state (fun _ h => h) (fun _ l' h => ⟨l', h, KeepL.refl _⟩))
+              (addReady_tasks h2) h
       · split at h
         · cases h
         · rename_i s2 r h2
@@ -358,7 +359,7 @@ theorem removeWorker_bumped {s s' : State} {w : Nat} {reason : String} {f : Bool
                     have : x ≠ task.id := fun e => hx (e.trans (findTask_some_id htk'))
                     simp [this]
                   refine ⟨Evo.set (s := { s with workers := _ }) rfl htk'
-                    (TRel.state task _ (by simp [hs]) (by simp)), setTask_ids _ _, ?_, ?_⟩
+                    (TRel.filterMN task hs hroot), setTask_ids _ _, ?_, ?_⟩
                   · intro hnr
                     rcases hst with ⟨v, hs'⟩ | ⟨v, hs'⟩ | hs' | hs' | ⟨others', hs'⟩
                     · obtain ⟨wk', A', F', P', hw', ha', _⟩ := hi.assigned_complete ht (Or.inl hs')
